@@ -587,7 +587,7 @@ func familyFixed() {
 }
 
 func main() {
-	run = enum.NewRun("C08", 42*time.Second, 8*time.Minute)
+	run = enum.NewRun("C08", 42*time.Second, 9*time.Minute)
 	depth := 2
 	if run.Thorough() {
 		depth = 3
